@@ -100,6 +100,7 @@ class Ctx:
         self.violations = []       # (replay_path, text)
         self.known_seen = []
         self.notes = []
+        self.dead = []             # scenarios the driver could not complete (exit 2 unless a violation was found elsewhere)
         self.known = load_known().get(pid, [])
         self.workers = int(os.environ.get("VERIF_WORKERS", "8"))
 
@@ -455,7 +456,21 @@ class Ctx:
     def open_findings(self):
         return {k["id"]: k for k in self.known if k.get("status") == "open"}
 
+    def drop_dead(self, traces):
+        """Scenarios whose driver gave up (DriverDead event) carry no verdict.  They are set aside: the other traces are
+        still validated, and the run is inconclusive (exit 2) only if no violation was found in those."""
+        alive = []
+        for t in traces:
+            dd = [e for e in t["events"] if e.get("event") == "DriverDead"]
+            if dd:
+                self.dead.append((t.get("id"), dd[0]))
+            else:
+                alive.append(t)
+        return alive
+
     def finish(self, level, extra_cov=None, rule=None):
+        if self.dead and not self.violations:
+            raise Inconclusive("driver could not complete %d scenario(s), e.g. %s" % (len(self.dead), self.dead[:3]))
         cov = self.cov
         if extra_cov:
             cov.update(extra_cov)
